@@ -256,6 +256,19 @@ func (r *runner) checkMaps(d *Doc, data []byte, got *ap.AP, kind string) {
 			return
 		}
 	}
+	// the main binary comes first: "Use heuristics to identify main binary and move it to the top of the
+	// list of mappings" - the first listed mapping with a name that is neither a library (.so) nor bracketed
+	for _, w := range want {
+		if w.File == "" || w.File[0] == '[' || strings.HasSuffix(w.File, ".so") || strings.Contains(w.File, ".so.") {
+			continue
+		}
+		if len(got.Maps) > 0 && got.Maps[0].File != w.File {
+			r.viol(form+".main-binary-first", d, data, "the first mapping of the profile is %q; the first listed candidate for the main binary is %q; got %+v", got.Maps[0].File, w.File, got.Maps)
+			return
+		}
+		c.Count("map/main-binary-first", 1)
+		break
+	}
 	if len(want) < countExec(md, wide) {
 		c.Count("map/adjacent-merged", 1)
 	} else if md.Ents == 7 {
@@ -447,7 +460,7 @@ func mapDocs(bothSentinels, allowAbsent bool) []MapDoc {
 	}
 	for s := 0; s < sents; s++ {
 		out = append(out, MapDoc{Ents: 1, Sent: s})
-		for e := 2; e <= 7; e++ {
+		for e := 2; e <= 8; e++ {
 			for f := 0; f < 5; f++ {
 				out = append(out, MapDoc{Ents: e, Form: f, Sent: s})
 			}
